@@ -127,8 +127,13 @@ where
     pub(crate) fn process(&self) -> Vec<A::Effect> {
         self.executor.run_all();
 
-        while let Some(capability_event) = self.capability_events.receive() {
+        loop {
+            // take the model before taking the next event off the queue: a caller on another
+            // thread must not be able to apply a later event of the queue before this one
             let mut model = self.model.write().expect("Model RwLock was poisoned.");
+            let Some(capability_event) = self.capability_events.receive() else {
+                break;
+            };
             let command = self
                 .app
                 .update(capability_event, &mut model, &self.capabilities);
